@@ -6,7 +6,16 @@ def run(tier, report):
     # unbounded companion: the uniqueness bookkeeping as an inductive invariant (any number of rows and data sets)
     from harness import core
     report.notes["unbounded_argument"] = core.apalache_inductive("MC_UniqueInductive.tla", "IndInit", "IndInv")
+    # two validators alive at the same time on one Cid (known finding D45)
+    from harness import shared_cid
+    shared_cid.run(report)
     return session_props.run_plan("C05", tier, report)
 
 
-replay = session_check.replay
+def replay(behaviour, report=None):
+    if "sched" in behaviour:
+        from harness import core, shared_cid
+        core.import_repo()
+        verdict, what = shared_cid._job(behaviour)
+        return [] if verdict == "alone" else [what]
+    return session_check.replay(behaviour, report)
